@@ -321,7 +321,9 @@ class Model(object):
     meas = {}
     for name in n['m']:
       v = None if timeout_phase else b['sets'].get(name)
-      meas[name] = {'p': 'PASS', 'f': 'FAIL', None: 'UNSET'}[v]
+      # 'x': a value on which the validator raises, the body swallows the exception; 'px': a passing value first, then
+      # such an override - the recorded value is one its validator cannot accept: FAIL either way
+      meas[name] = {'p': 'PASS', 'f': 'FAIL', 'x': 'FAIL', 'px': 'FAIL', None: 'UNSET'}[v]
       cvr = (n.get('cv') or {}).get(name)
       if cvr is not None and cvr in self.store and v == 'p':
         meas[name] = 'FAIL'   # conditional validator applies: its diagnosis result existed when the phase started
